@@ -1,6 +1,6 @@
 (* C20 — shape of the generated cases and the two executable verdicts. No proofs. *)
 From VLib Require Import CaseLib.
-From C20 Require Import Model.
+From C20 Require Import Model ModelLex.
 
 Definition fld_eqb (a b : fld) : bool := Nat.eqb (fst a) (fst b) && Nat.eqb (snd a) (snd b).
 
@@ -46,7 +46,13 @@ Inductive case :=
 | CPage (page : list doc) (fields : list key) (allow : bool) (impl : list impl_doc)
 (* makeFetchReq called once per source with ONE filter value ff: the filters of the requests
    (each read right after its call) and the caller's filter after all calls *)
-| CReq (ff : pfilter) (reqs : list pfilter) (after : pfilter).
+| CReq (ff : pfilter) (reqs : list pfilter) (after : pfilter)
+(* query TEXT q (bytes) given to tryParseFieldsFilter; valid = the search expression in front of the first
+   top-level `|` parses; tails = for every top-level `|` the generator wrote: (byte offset, tokens of the text
+   from there to the end); want as in CPipe; impl = filter derived from q; star = filter the real code derives
+   from `*` followed by the text from the first written top-level `|` on (no_filter when there is none) *)
+| CPipeText (q : bytes) (valid : bool) (tails : list (nat * list ptok)) (want : option pfilter)
+            (impl : pfilter) (star : pfilter).
 
 Definition req_matches (ff r : pfilter) : bool :=
   same_names (pf_fields r) (pf_fields ff) && Bool.eqb (pf_allow r) (pf_allow ff).
@@ -62,6 +68,9 @@ Definition case_agrees (c : case) : bool :=
   | CReq ff reqs after =>
       let '(m, mafter) := fetch_reqs ff (length reqs) in
       forallb (fun mr => req_matches (fst mr) (snd mr)) (combine m reqs) && pf_eqb mafter after
+  | CPipeText q valid tails _ impl _ =>
+      tail_known tails valid q
+      && match extract_text (lexp_of tails (length q)) valid q with Ok p => pf_eqb p impl | _ => false end
   end.
 
 Definition case_spec_ok (c : case) : bool :=
@@ -80,6 +89,14 @@ Definition case_spec_ok (c : case) : bool :=
       (* every source is asked for the same set of names in the same mode, and the caller's
          filter is what it was *)
       forallb (req_matches ff) reqs && pf_eqb ff after
+  | CPipeText _ valid _ want impl star =>
+      (* the filter of the first pipe as written, and the same as for `* | p`: a `|` inside a quoted value
+         or a comment of the search expression does not matter *)
+      match want with
+      | Some p => pf_eqb p impl
+      | None => pf_eqb no_filter impl
+      end
+      && (negb valid || pf_eqb star impl)
   end.
 
 Definition diff_indices (l : list case) : list nat := bad_indices (fun c => negb (case_agrees c)) l.
